@@ -362,7 +362,9 @@ impl<RW: QueueRW<T>, T> MultiQueue<RW, T> {
 
     pub fn try_recv(&self, reader: &Reader) -> Result<T, (*const AtomicUsize, TryRecvError)> {
         let mut ctail_attempt = reader.load_attempt(Relaxed);
-        let is_single = reader.is_single();
+        // Must be the mode the position was loaded in: asking the consumer count
+        // again could say "single" for a position a sibling has since consumed.
+        let is_single = ctail_attempt.is_single();
         unsafe {
             loop {
                 let (ctail, wrap_valid_tag) = ctail_attempt.get();
